@@ -249,28 +249,47 @@ public:
 
         QString pattern;
         if (suffix.isEmpty()) {
-            pattern = QStringLiteral("^%1\\.\\d{4}-\\d{2}-\\d{2}\\.\\d+(\\.gz)?$")
+            pattern = QStringLiteral("^%1\\.(\\d{4}-\\d{2}-\\d{2})\\.(\\d+)(\\.gz)?$")
                           .arg(QRegularExpression::escape(baseName));
         } else {
-            pattern = QStringLiteral("^%1\\.\\d{4}-\\d{2}-\\d{2}\\.\\d+\\.%2(\\.gz)?$")
+            pattern = QStringLiteral("^%1\\.(\\d{4}-\\d{2}-\\d{2})\\.(\\d+)\\.%2(\\.gz)?$")
                           .arg(QRegularExpression::escape(baseName),
                                QRegularExpression::escape(suffix));
         }
 
         auto re = QRegularExpression(pattern);
         auto dir = QDir(baseDir());
-        auto result = QStringList();
+
+        // Rotation order is the order of (date, index) in the rotated names. Modification times
+        // cannot be used: files rotated within one timestamp tick compare equal and would fall
+        // back to name order, where index 10 sorts before index 9
+        struct RotatedFile
+        {
+            QString date;
+            qulonglong index;
+            QString path;
+        };
+        auto files = QList<RotatedFile>();
 
         const auto entries = dir.entryList(QDir::Files, QDir::Name);
         for (const QString &entry : entries) {
-            if (re.match(entry).hasMatch()) {
-                result.append(dir.filePath(entry));
+            const auto match = re.match(entry);
+            if (match.hasMatch()) {
+                files.append({ match.captured(1), match.captured(2).toULongLong(),
+                               dir.filePath(entry) });
             }
         }
 
-        std::sort(result.begin(), result.end(), [](const QString &a, const QString &b) {
-            return QFileInfo(a).lastModified() < QFileInfo(b).lastModified();
+        std::sort(files.begin(), files.end(), [](const RotatedFile &a, const RotatedFile &b) {
+            if (a.date != b.date)
+                return a.date < b.date;
+            return a.index < b.index;
         });
+
+        auto result = QStringList();
+        for (const auto &file : files) {
+            result.append(file.path);
+        }
 
         return result;
     }
